@@ -167,9 +167,15 @@ def _parse_coverage(out):
                 l1, c1, l2, c2 = (int(m.group(i)) for i in (3, 4, 5, 6))
                 span = "\n".join(lines[l1 - 1:l2])
                 span = span[c1 - 1:]
-                mm = re.search(r":\s*\(?\s*([A-Za-z_]\w*)", span) or re.search(r"([A-Z]\w*)\(", span)
-                if mm:
-                    name = mm.group(1)
+                span = re.sub(r'"[^"]*"', '""', span)
+                defined = set(re.findall(r"^([A-Za-z_]\w*)(?:\([^)]*\))?\s*==", "\n".join(lines), re.M))
+                cands = [c for c in re.findall(r"([A-Za-z_]\w*)\s*(?:\(|$|\n|/\\|\\/)", span) if c in defined]
+                if cands:
+                    name = cands[0]
+                else:
+                    mm = re.search(r":\s*\(?\s*([A-Za-z_]\w*)", span) or re.search(r"([A-Z]\w*)\(", span)
+                    if mm:
+                        name = mm.group(1)
             except OSError:
                 pass
         cov[name] = cov.get(name, 0) + gen
